@@ -49,7 +49,7 @@ class _Worker:
         self.p = None
 
     def start(self):
-        code = (f"import sys; sys.path[:0]=[{HARNESS!r}, '/repo']; "
+        code = (f"import sys; sys.path[:0]=[{HARNESS!r}, {os.environ.get('SFV_REPO', '/repo')!r}]; "
                 "from sfv.props import c18_tasks; c18_tasks.main()")
         self.p = subprocess.Popen([sys.executable, '-c', code], stdin=subprocess.PIPE, stdout=subprocess.PIPE,
                                   start_new_session=True, text=True, bufsize=1)
